@@ -1,9 +1,9 @@
 ----------------------------- MODULE MC_Reaction -----------------------------
 (***************************************************************************)
 (* Constants of the C08 design model and the case generator.               *)
-(* Names: A, AB (A is a prefix of AB, as H2 / H2O), B on the reactant and  *)
-(* product sides, D in the transition state, Z never in a reaction.        *)
-(* Coefficients in quarters: 1/4, 1, 2.                                    *)
+(* Names: A, AB, B on the reactant and product sides (A is a prefix of AB  *)
+(* as H2 / H2O, B a suffix of AB as O / H2O), D in the transition state, Z *)
+(* never in a reaction.  Coefficients in quarters: 1/4, 1, 3/2, 2.         *)
 (***************************************************************************)
 EXTENDS Reaction, Json, IOUtils, SequencesExt
 
@@ -14,7 +14,8 @@ D == <<"D">>
 Z == <<"Z">>
 NameOrder == <<A, AB, B>>
 BlockOrder == <<A, AB, D, Z>>
-Coefs == {1, 4, 8}
+Coefs == {1, 4, 6, 8}
+PairCoefs == {1, 4, 8}
 Sp(n, c) == [n |-> n, c |-> c]
 
 Sides1 == {<<Sp(NameOrder[i], a)>> : i \in 1..3, a \in Coefs}
@@ -24,9 +25,9 @@ TSForms == {<<>>, <<Sp(D, 4)>>, <<Sp(D, 1), Sp(A, 8)>>}
 
 \* (D) algebra configuration: every reaction with 1-2 species per side (a species may repeat, may sit
 \* on both sides and in the TS), all coefficient assignments, TS absent / 1 / 2 species
-AllSides == Sides1 \cup Sides2(Coefs \X Coefs)
+AllSides == Sides1 \cup Sides2(PairCoefs \X PairCoefs)
 MCRxns == [r : AllSides, p : AllSides, t : TSForms]
-\* quick tier: the coefficient pairs of two-species sides are restricted (3 267 reactions)
+\* quick tier: the coefficient pairs of two-species sides are restricted (3 888 reactions)
 QuickSides == Sides1 \cup Sides2({<<1, 4>>, <<4, 8>>, <<8, 1>>, <<4, 4>>})
 QuickRxns == [r : QuickSides, p : QuickSides, t : TSForms]
 
